@@ -446,6 +446,12 @@ def h_replay_normalise_monotone(a: int, b: int) -> bool:
     return L.replay_normalise_monotone(a, b)
 
 
+def h_replay_normalise_monotone_1ulp(a: int, b: int) -> bool:
+    from harness import _E2_lemmas as L
+
+    return L.replay_normalise_monotone_1ulp(a, b)
+
+
 META = {
     "level": "model_checking",
     "claim": "Bounded model checking by symbolic execution of the real fitness/coverage code over F-trace: for every "
@@ -519,7 +525,7 @@ def obligations(tier: str):
     # normalise(v) in [0,1], normalise(v) == 0 <=> v == 0, monotone, for every non-NaN v >= 0 in Float64
     from harness import _E2_lemmas as L
 
-    obs += L.normalise_obligations(tier, h_replay_normalise, h_replay_normalise_monotone)
+    obs += L.normalise_obligations(tier, h_replay_normalise, h_replay_normalise_monotone_1ulp)
 
     # ---- symbolic positive distances a/16 and inf (k in {0, 1})
     for name in ["seq", "guard", "box", "branchless", "empty"]:
